@@ -86,8 +86,10 @@ CHECKS['C06'] = ('proof', 'Structural theorems on the byte-exact builder model: 
 CHECKS['C01'] = ('proof', 'Semantics of the emitted C++ fragment (late-bound std::function slots, std::ref, dzn::shell, dzn::pump) in Gallina; the builder '
                  'model renders exactly these statements, so the byte-exact correspondence ties them to /repo. Theorems: the constructor program contains '
                  'the forwarding statement for every event of every MTS exposed port (none left out, same port and event on the other side); calling the '
-                 'user-side slot yields exactly one native record at the same-named slot with arguments in order, reply and by-reference finals returned '
-                 '(Properties/C01.v). Leg B: every generated shell compiled with a mock runtime under ASan and driven through every (port, event) in all four directions.',
+                 'user-side slot yields exactly one native record at the same-named slot with arguments in order, reply and by-reference finals returned; '
+                 'END TO END from distinct port names and distinct event names per interface alone (every slot-level hypothesis derived, four directions) '
+                 '(Properties/C01.v). Leg B: every generated shell compiled with a mock runtime under ASan and driven through every (port, event) in all four directions, '
+                 'the multi-client port through a registered client.',
                  'partial: that g++ gives the rendered statements the meaning Sem/Exec.v assigns is validated by running them, not proved. Name-hygiene side '
                  'conditions are explicit hypotheses (known finding K6 when violated). Multi-client ports are covered by C04. Repaired defect F5.', '§5 C01')
 CHECKS['C02'] = ('proof', 'Same semantics: MTS provides in-events run in dispatcher context with the caller blocked; MTS requires out-events return at once with '
